@@ -758,7 +758,9 @@ class Evaluator:
                     ty0 = (e.get('ga') or ['?'])[0]
                     newv = ('lit', 0, ty0, ()) if ty0 in ('usize', 'u8', 'u16', 'u32', 'u64', 'u128', 'isize', 'i8', 'i16', 'i32', 'i64', 'i128') else \
                         (('adt', 'core::option::Option', 'None', [], None) if ty0.startswith('core::option::Option') else ('default', ty0))
-                return (place, cat(pre, ['SET', place, newv, None]))
+                # the value is the one the place held BEFORE the assignment: keep it distinguishable from a later read of the place
+                oldv = ('call', 'take' if f.endswith('take') else 'replace', f, [place], tuple(e.get('ga') or ()), None, e.get('loc'))
+                return (oldv, cat(pre, ['SET', place, newv, None]))
         if name in ('get', 'get_mut') and f.startswith('core::slice::<impl [T]>::') and len(argv) == 2:
             # checked indexing: Some(&s[r]) exactly when r lies within the slice
             recv, rng = strip(argv[0]), strip(argv[1])
